@@ -631,9 +631,9 @@ class WriteWalk:
                 if emitted["any"]:
                     self.ops.append(("len", self.sanitize))
                     if self.written == start:
-                        self.write_value(ins.type, None)
+                        self.write_value(ins.type, ins.value)
                 else:
-                    self.write_value(ins.type, None)
+                    self.write_value(ins.type, ins.value)
                 emitted["any"] = True
             elif tag == "switch":
                 emitted["any"] = True
